@@ -245,6 +245,69 @@ pub fn gen_watch(rng: &mut Rng, o: &WatchOpts) -> Scenario {
     sc
 }
 
+/// Aimed at "dependents stay blocked, directly or transitively": `top -> app -> mid -> schema`
+/// where `mid` is a service (or, as a control, a build or an aggregate over `schema`); everything
+/// comes up, `schema`'s source is edited and its second run fails, zinoma goes idle, then the
+/// sources of the targets above are edited one idle point at a time.
+pub fn gen_watch_failure_below(rng: &mut Rng) -> Scenario {
+    let mut files = vec![];
+    let mut proj = Project { dir: "p0".into(), name: if rng.chance(30) { Some("root".into()) } else { None }, imports: vec![], targets: vec![], raw_yaml: None, import_paths: Default::default() };
+    let mid_kind = match rng.weighted(&[60, 25, 15]) {
+        0 => Kind::Service,
+        1 => Kind::Build,
+        _ => Kind::Aggregate,
+    };
+    let dep = |t: &str| DepRef { project: 0, target: t.into(), via_dep: true, via_output: false, qualified: false };
+    let mut mk = |name: &str, kind: Kind, deps: Vec<&str>, files: &mut Vec<FileSpec>| {
+        let mut t = Target::new(name, kind);
+        if kind != Kind::Aggregate {
+            let src = format!("src/{}.txt", name);
+            files.push(FileSpec { path: format!("p0/{}", src), kind: FileKind::File(format!("source of {} v0\n", name)) });
+            t.input.push(Res::Paths { paths: vec![src], extensions: None });
+        }
+        if kind == Kind::Build {
+            let out = format!("out/{}.out", name);
+            t.output.push(Res::Paths { paths: vec![out.clone()], extensions: None });
+            t.writes.push(out);
+        }
+        for d in deps {
+            t.deps.push(dep(d));
+        }
+        t
+    };
+    proj.targets.push(mk("schema", Kind::Build, vec![], &mut files));
+    proj.targets.push(mk("mid", mid_kind, vec!["schema"], &mut files));
+    proj.targets.push(mk("app", Kind::Build, vec!["mid"], &mut files));
+    let with_top = rng.chance(75);
+    if with_top {
+        proj.targets.push(mk("top", Kind::Build, vec!["app"], &mut files));
+    }
+    let root = if with_top { "top" } else { "app" };
+    let mut sc = Scenario { focus: None, label: format!("failure-below-{:?}", mid_kind).to_lowercase(), projects: vec![proj], files, vars: BTreeMap::new(), steps: vec![] };
+    let mut inv = plain_invocation(rng, &sc, 0, vec!["--watch".to_string(), root.to_string()]);
+    inv.plan.events.clear();
+    inv.plan.knobs.trace_poll_empty = false;
+    inv.plan.faults.push(Fault { site: "proc.exit:p0.schema".into(), occurrence: 2, kind: gen::fail_exit(rng) });
+    inv.plan.events.push(PlanEvent { id: "e0".into(), kind: PlanEventKind::Fs { ops: vec![FsOp::Write { path: "p0/src/schema.txt".into(), content: "schema v1 (does not build)\n".into() }] }, gate: Gate::Quiescence(1) });
+    let mut above: Vec<&str> = if with_top { vec!["top", "app"] } else { vec!["app"] };
+    if rng.chance(50) {
+        above.reverse();
+    }
+    let mut q = 2;
+    for (k, name) in above.iter().enumerate() {
+        if k > 0 && rng.chance(40) {
+            break;
+        }
+        inv.plan.events.push(PlanEvent { id: format!("e{}", k + 1), kind: PlanEventKind::Fs { ops: vec![FsOp::Write { path: format!("p0/src/{}.txt", name), content: format!("{} v1\n", name) }] }, gate: Gate::Quiescence(q) });
+        q += 1;
+    }
+    inv.plan.events.push(gen::signal_at_idle());
+    inv.plan.knobs.step_budget = 400_000;
+    sc.steps.push(Step::Invoke(inv));
+    sc.label = format!("watch-{}", sc.label);
+    sc
+}
+
 // ------------------------------------------------------------------ helpers on traces
 
 fn watch_invocation(sc: &Scenario) -> Option<&Invocation> {
@@ -823,6 +886,74 @@ pub fn oracle_c07_watch(sc: &Scenario, s: &Session) -> Option<Violation> {
             return viol("dependent-of-failed-not-blocked", v.witness.clone(), format!("after the failure of [{}]: {}", failed_disp.join(","), v.message));
         }
     }
+    // "its dependents stay blocked", for a target whose RE-build failed (it had been ready
+    // before): once zinoma has gone idle after the failure every notice has been delivered and
+    // acted upon, so whatever depends on the failed target, directly or transitively, and is
+    // started after that idle point (its own input was edited) was not blocked. (Evaluated last:
+    // the one way this is known to happen is a recorded finding.)
+    for (t, fseq) in &failed {
+        let ready_seqs = |x: &Tid| -> Vec<u64> {
+            if model::kind_of(sc, x) == Some(Kind::Service) {
+                c.starts(x)
+            } else {
+                c.build_ready_seqs(x)
+            }
+        };
+        if !ready_seqs(t).iter().any(|&s| s < *fseq) {
+            continue;
+        }
+        // the failure must be the target's latest word: no later start, success or failure
+        if c.starts(t).iter().any(|&s| s > *fseq) || failed.iter().any(|(t2, f2)| t2 == t && f2 > fseq) {
+            continue;
+        }
+        let idle = match r.events.iter().find(|e| e.kind == "quiescence" && e.seq > *fseq) {
+            Some(e) => e.seq,
+            None => continue,
+        };
+        for p in &r.procs {
+            if (p.kind != "build" && p.kind != "service") || p.spawn_seq < idle || sig.map(|s| p.spawn_seq > s).unwrap_or(false) {
+                continue;
+            }
+            let pt = match tid_of_sim_id(sc, &p.id) {
+                Some(x) => x,
+                None => continue,
+            };
+            if !model::transitive_effective_deps(sc, &pt).contains(t) {
+                continue;
+            }
+            // does a path exist along which zinoma's actors pass the notice on? A build that
+            // learns that a SERVICE it depends on is out of date blocks itself and tells nobody.
+            fn passes(sc: &Scenario, from: &Tid, to: &Tid, first: bool, seen: &mut BTreeSet<Tid>) -> bool {
+                if from == to {
+                    return true;
+                }
+                if !seen.insert(from.clone()) {
+                    return false;
+                }
+                for d in model::effective_deps(sc, from) {
+                    let stops = !first && model::kind_of(sc, from) == Some(Kind::Build) && model::kind_of(sc, &d) == Some(Kind::Service);
+                    if !stops && passes(sc, &d, to, false, seen) {
+                        return true;
+                    }
+                }
+                false
+            }
+            let handled = passes(sc, &pt, t, true, &mut BTreeSet::new());
+            return viol(
+                "dependent-of-failed-started-after-idle",
+                format!("target={} failed-dep={} notice-path={}", c.display(&pt), c.display(t), if handled { "exists" } else { "none(build-above-service)" }),
+                format!(
+                    "the rebuild of {} failed at seq {}, zinoma went idle at seq {}, and {} - which depends on it{} - was started afterwards (seq {}): it was not blocked",
+                    c.display(t),
+                    fseq,
+                    idle,
+                    c.display(&pt),
+                    if handled { "" } else { " only through a build that depends on a service" },
+                    p.spawn_seq
+                ),
+            );
+        }
+    }
     None
 }
 
@@ -994,7 +1125,7 @@ impl Property for C16 {
         }
     }
     fn rule(&self) -> &'static str {
-        "one case = project whose build targets watch directories (with and without extension filters; one target may watch the whole project directory, so zinoma's own .zinoma writes are seen by the watcher) + a --watch session whose bursts are applied one per idle point: irrelevant changes (other extensions, anything under .zinoma, `x~`, `.x.swp`, `.x.swx`), hostile names (invalid UTF-8, newline, only dots, a name equal to an extension), relevant changes; create / in-place modify / rename / delete. Oracle per burst, using the documented relevance rule re-implemented in the driver: a burst relevant to no target is followed by no script start and no skip evaluation before the next idle point; a burst relevant to T is followed by an evaluation of T (watcher still alive, whatever names were seen before); the session becomes idle (no rebuild loop). Also generated: directories declared as `<dir>/up/..` or through a link (`jump/..`), touches of watched directories (neutral for the relevance clauses), names that merely contain `.zinoma`, a path-less rescan event after a kernel queue overflow (fault notify.rescan), a first run that fails while one of its inputs is saved again, a target that writes generated sources into its own watched directory. distinct_nontrivial = distinct order hashes among sessions that applied at least one irrelevant or hostile change"
+        "one case = project whose build targets watch directories (with and without extension filters; one target may watch the whole project directory, so zinoma's own .zinoma writes are seen by the watcher) + a --watch session whose bursts are applied one per idle point: irrelevant changes (other extensions, anything under .zinoma, `x~`, `.x.swp`, `.x.swx`), hostile names (invalid UTF-8, newline, only dots, a name equal to an extension), relevant changes; create / in-place modify / rename / delete. Oracle per burst, using the documented relevance rule re-implemented in the driver: a burst relevant to no target is followed by no script start and no skip evaluation before the next idle point; a burst relevant to T is followed by an evaluation of T (watcher still alive, whatever names were seen before); the session becomes idle (no rebuild loop). Also generated: directories declared as `<dir>/up/..` or through a link (`jump/..`), touches of watched directories (neutral for the relevance clauses), names that merely contain `.zinoma`, a path-less rescan event after a kernel queue overflow (fault notify.rescan), a first run that fails while one of its inputs is saved again, a second files resource with a filter of its own and files carrying the extension of the other resource, a target that writes generated sources into its own watched directory. distinct_nontrivial = distinct order hashes among sessions that applied at least one irrelevant or hostile change"
     }
     fn assumptions(&self) -> Vec<&'static str> {
         vec!["a panic inside the notification callback kills that watcher for good, as it kills the real `notify-rs inotify loop` thread"]
